@@ -414,6 +414,53 @@ func init() {
 	}
 	ops["C20.numval"], ops["C20.numvalk"], ops["C20.numvalx"] = numval, numval, numval
 	ops["C20.numstr"] = func(a []string) string { return c20NumStr(a[0], a[1], string(unhx(a[2]))) }
+	// chainsenv / chainsfile <hex raw text>  => <ok:<number of chains>|err>/<oracle>
+	// the raw text is the value of SYG_CHAINS resp. the `domains` member of the config file, well-formed or not.
+	// oracle = what encoding/json says about that text: ok:<n> if it is a JSON list of objects (or null), err otherwise
+	chainsRaw := func(loader string) Op {
+		return func(a []string) string {
+			raw := string(unhx(a[0]))
+			oracle := "err"
+			var probe []map[string]interface{}
+			if err := json.Unmarshal([]byte(raw), &probe); err == nil {
+				oracle = "ok:" + itoa(len(probe))
+			}
+			var c *config.Config
+			var err error
+			if loader == "e" {
+				set := map[string]string{
+					"SYG_RELAYER_MPCCONFIG_TOPOLOGYCONFIGURATION_ENCRYPTIONKEY": "k",
+					"SYG_RELAYER_MPCCONFIG_TOPOLOGYCONFIGURATION_URL":           "u",
+					"SYG_RELAYER_MPCCONFIG_TOPOLOGYCONFIGURATION_PATH":          "p",
+					"SYG_CHAINS": raw,
+				}
+				for k, v := range set {
+					os.Setenv(k, v)
+				}
+				defer func() {
+					for k := range set {
+						os.Unsetenv(k)
+					}
+				}()
+				c, err = config.GetConfigFromENV(nil)
+			} else {
+				doc := `{"relayer":{"MpcConfig":{"TopologyConfiguration":{"EncryptionKey":"k","Url":"u","Path":"p"}}},"domains":` + raw + `}`
+				fh, e := os.CreateTemp("", "verif-c20-*.json")
+				if e != nil {
+					panic(e)
+				}
+				defer os.Remove(fh.Name())
+				fh.WriteString(doc)
+				fh.Close()
+				c, err = config.GetConfigFromFile(fh.Name(), nil)
+			}
+			if err != nil {
+				return "err/" + oracle
+			}
+			return "ok:" + itoa(len(c.ChainConfigs)) + "/" + oracle
+		}
+	}
+	ops["C20.chainsenv"], ops["C20.chainsfile"], ops["C20.chainsfilek"] = chainsRaw("e"), chainsRaw("f"), chainsRaw("f")
 	ops["C20.dur"] = func(a []string) string {
 		st := map[string]string{}
 		if a[2] != "-" {
@@ -1294,5 +1341,51 @@ func genC20(g *G) {
 			t = g.Pick([]string{"", "-"}) + t + g.Pick([]string{".5", ".25", ".125", ".75", ".001", ".999"})
 		}
 		emitNum(k, f, r, t)
+	}
+	// --- the chain list as raw text (SYG_CHAINS / the file's `domains`): a malformed list must fail the load, a well-formed
+	// one must load with all its entries
+	raws := []string{`[]`, `[{}]`, `[{"id":1,"type":"evm"}]`, `[{"id":1},{"id":2,"type":"btc"}]`, ` [ {"id":1} ] `, `null`,
+		`[{"id":1},]`, `[{"id":1}`, `[{"id":1`, `{"id":1}`, `[1,2]`, `["a"]`, `[[{"id":1}]]`, `[{"id":1}]]`, `[{"id":1}] x`, `[{"id":1,}]`, `[{id:1}]`,
+		`[{'id':1}]`, `"[]"`, `1`, `true`, `[`, `]`, `{`, `x`, `[{"id":1} {"id":2}]`, `[{"id":01}]`, `[{"id":1e}]`, `[{"id":NaN}]`, `[null]`, `[{"a":[1,2,{"b":null}]}]`,
+		`[{"id":1,"id":2}]`, "[{\"id\":1}]\n", "\ufeff[]", `[{"id":"\ud800"}]`, `[{"k":"v\"]`}
+	// viper decodes the file with weakly typed input: a single OBJECT (or a list of one-element lists) where the list of
+	// chains belongs is silently taken as a one-entry list - known finding, op chainsfilek
+	emitFile := func(raw []byte) {
+		var obj map[string]interface{}
+		var lol [][]interface{}
+		if json.Unmarshal(raw, &obj) == nil && obj != nil || json.Unmarshal(raw, &lol) == nil && len(lol) > 0 {
+			g.Emit("chainsfilek", hx(raw))
+			return
+		}
+		g.Emit("chainsfile", hx(raw))
+	}
+	for _, r := range raws {
+		g.Emit("chainsenv", hs(r))
+		emitFile([]byte(r))
+	}
+	for i := 0; i < g.Count(200, 10000); i++ {
+		// a well-formed list, then possibly one character deleted, duplicated or replaced
+		n := g.Intn(4)
+		parts := []string{}
+		for j := 0; j < n; j++ {
+			parts = append(parts, `{"id":`+itoa(j+1)+`,"type":"evm","k":[1,"x"]}`)
+		}
+		t := []byte("[" + strings.Join(parts, ",") + "]")
+		if g.Intn(3) > 0 && len(t) > 0 {
+			p := g.Intn(len(t))
+			switch g.Intn(3) {
+			case 0:
+				t = append(t[:p:p], t[p+1:]...)
+			case 1:
+				t = append(t[:p:p], append([]byte{t[p]}, t[p:]...)...)
+			default:
+				t[p] = []byte(`,]}{":x`)[g.Intn(7)]
+			}
+		}
+		if g.Bool() {
+			g.Emit("chainsenv", hx(t))
+		} else {
+			emitFile(t)
+		}
 	}
 }
